@@ -46,6 +46,7 @@ def rh_vector_part(s):
 
 class EmitEngine(object):
     prop = PROP
+    isolate_runs = True  # every run in a forked child of the worker (no state leaks from run to run)
 
     def __init__(self, seed=0):
         self.seed = seed
